@@ -535,6 +535,6 @@ M('seed4-C18-heartbeat-stop-behind-guard', ['C18'], F, "            if hasattr(s
 M('run-handler-emits-without-stop', ['C18'], F, "            except Filter.Exit:\n                if filter is not None and hasattr(filter, 'emitter') and filter.emitter is not None:\n                    filter.emitter.stop_lineage_heart_beat()\n                    filter.emitter.emit_stop()", "            except Filter.Exit:\n                if filter is not None and hasattr(filter, 'emitter') and filter.emitter is not None:\n                    filter.emitter.emit_stop()", ['C18.R4'])
 M('seed4-C17-size-cached-from-first-frame', ['C17'], VI, "        while True:\n            image  = None if self.stop_evt.is_set() else self.read_one()\n            tframe = time_ns()\n\n            if image is not None:\n                shape = image.shape\n\n                if size:", "        newsize = None\n\n        while True:\n            image  = None if self.stop_evt.is_set() else self.read_one()\n            tframe = time_ns()\n\n            if image is not None:\n                shape = image.shape\n\n                if size and newsize is None:", ['C17.R1'])
 M('seed4-C01-reset-guard-msg_balanced', ['C01', 'C02', 'C03', 'C07'], Z, "                        elif res and not balance:\n                            for s in sendervs:", "                        elif res and not msg_balanced:\n                            for s in sendervs:", ['C01.R2', 'C02.R8', 'C03.R9', 'C07.R2'])
-M('seed4-C04-required-consumer-skips-gate', ['C04'], Z, "                elif balance:\n                    out_do_send, out_nrequested, out_prev_id = (True, 0, MSG_ID_INITIAL) if (output := outputs.get(pull)) is None else output", "                elif client_id in self.outs_required:\n                    pass\n\n                elif balance:\n                    out_do_send, out_nrequested, out_prev_id = (True, 0, MSG_ID_INITIAL) if (output := outputs.get(pull)) is None else output", ['C04.R2'])
-M('new_recv-drops-first-message', ['C01', 'C03'], Z, "            elif topic:\n                recvd = {**recvd_new, topic: msg}\n            else:\n                recvd = recvd_new.copy()", "            elif not topic:\n                recvd = {**recvd_new, topic: msg}\n            else:\n                recvd = recvd_new.copy()", ['C01.R11', 'C01.R8'])
+M('seed4-C04-required-consumer-skips-gate', ['C04'], Z, "                elif balance:  # if doing this then only one bound output endpoint needs to have all clients requested in order to send to that endpoint only", "                elif client_id in self.outs_required:\n                    pass\n\n                elif balance:  # if doing this then only one bound output endpoint needs to have all clients requested in order to send to that endpoint only", ['C04.R2'])
+M('new_recv-drops-first-message', ['C01'], Z, "            elif topic:\n                recvd = {**recvd_new, topic: msg}\n            else:\n                recvd = recvd_new.copy()", "            elif not topic:\n                recvd = {**recvd_new, topic: msg}\n            else:\n                recvd = recvd_new.copy()", ['C01.R11', 'C01.R8'])
 M('process_msg-equal-id-no-init', ['C01'], Z, "                        if (recvd := sender.recvd) is None:\n                            recvd = sender.recvd = sender.init_recvd(msg, topic, topics)\n\n                        elif topic:", "                        if (recvd := sender.recvd) is None:\n                            recvd = sender.recvd = {}\n\n                        elif topic:", ['C01.R11'])
